@@ -230,4 +230,39 @@ theorem truncateInit_spec (n : Int) (b agg : Bool) (rows : List ORow) :
     have : ¬ n < 1 := by omega
     simp [this]
 
+/-! ### the child sees the same terms and its rows come back with their columns untouched -/
+
+theorem polyScale_keys (s : Rat) (ign : List (List Label)) (p : Poly) : (polyScale s ign p).map (·.1) = p.map (·.1) := by
+  unfold polyScale
+  rw [List.map_map]
+  apply List.map_congr_left
+  intro t _
+  obtain ⟨k, v⟩ := t
+  show (if ign.any (sameSet k) = true then (k, v) else (k, s * v)).1 = k
+  split <;> rfl
+
+theorem polyNormalize_keys (br : RangeArg) (pr : Option RangeArg) (ign : List (List Label)) (p scaled : Poly)
+    (h : polyNormalize br pr ign p = some scaled) : scaled.map (·.1) = p.map (·.1) := by
+  rcases polyNormalize_cases br pr ign p scaled h with h1 | ⟨s, _, h1⟩
+  · rw [h1]
+  · rw [h1, polyScale_keys]
+
+theorem polyNormalizeSample_columns (child : Poly → List Row) (p : Poly) (br : RangeArg) (pr : Option RangeArg)
+    (ign : List (List Label)) (out : List Row) (h : polyNormalizeSample child p br pr ign = some out) :
+    ∃ scaled, polyNormalize br pr ign p = some scaled ∧ out.map (·.x) = (child scaled).map (·.x) := by
+  unfold polyNormalizeSample at h
+  cases hn : polyNormalize br pr ign p with
+  | none => rw [hn] at h; cases h
+  | some scaled =>
+    rw [hn] at h
+    refine ⟨scaled, rfl, ?_⟩
+    simp only at h
+    by_cases he : ign.isEmpty = true
+    · rw [if_pos he] at h
+      cases h
+      rw [List.map_map]; rfl
+    · rw [if_neg he] at h
+      cases h
+      rw [List.map_map]; rfl
+
 end Enum
